@@ -431,7 +431,12 @@ func GenTx(t *rapid.T, p *Profile, pools *Pools, o TxOpts) *m.Tx {
 		tx.Body = append(tx.Body, m.BodyItem{C: GenComment(t, p, pools, !p.off("comment.indented-tag")), Indent: rapid.SampledFrom([]string{"    ", "  "}).Draw(t, "cindl")})
 	}
 	if !p.off("line.trailing-blanks") && rapid.IntRange(0, 7).Draw(t, "htrail") == 0 {
-		tx.Trail = rapid.SampledFrom([]string{" ", "  ", "\t"}).Draw(t, "htrailv")
+		trails := []string{" ", "  ", "\t"}
+		if tx.HC == nil && !tx.NoDesc && !p.off("descr.trail-unicode-blank") && !p.off("text.nonascii") {
+			// the description is followed by a blank that is not ASCII; it is no part of the description
+			trails = append(trails, "\u00a0", " \u3000", "\u3000 ")
+		}
+		tx.Trail = rapid.SampledFrom(trails).Draw(t, "htrailv")
 	}
 	return tx
 }
